@@ -129,7 +129,7 @@ def clash_key(c):
         return "nested-type-named-like-size-constant"
     if "fixed member" in pair and ("field accessor" in pair or "field has_" in pair):
         return "field-named-like-view-data-member"
-    if "fixed member" in pair and ("parameter member" in pair):
+    if "fixed member" in pair and pair & {"parameter member", "parameter accessor", "parameter has_"}:
         return "parameter-named-like-view-data-member"
     if "parameter member" in pair and "field accessor" in pair:
         return "field-named-like-parameter-member"
@@ -263,8 +263,10 @@ def compile_plan(c, idx, tier, pinned=False, all_std=False):
             job("driver:%s:traits" % sd, c.driver_t, sd, inc_t)
         job("driver:%s:no-traits" % stds[idx % 3], c.driver_n, stds[idx % 3], inc_n)
         if tier == "thorough":
-            job("driver:clang:%s:traits" % stds[(idx + 2) % 3], c.driver_t, stds[(idx + 2) % 3], inc_t, "clang++")
-            job("driver:clang:%s:no-traits" % stds[idx % 3], c.driver_n, stds[idx % 3], inc_n, "clang++")
+            if idx % 2:
+                job("driver:clang:%s:traits" % stds[(idx + 2) % 3], c.driver_t, stds[(idx + 2) % 3], inc_t, "clang++")
+            else:
+                job("driver:clang:%s:no-traits" % stds[idx % 3], c.driver_n, stds[idx % 3], inc_n, "clang++")
     return jobs
 
 
@@ -363,19 +365,6 @@ def run_cases(chk, cases, model_ok, tier, workers):
         c.pinned, c.all_std = pinned, all_std
         prepared.append(c)
     chk.extra["emboss_s"] = round(chk.extra.get("emboss_s", 0) + time.time() - t0, 1)
-    jobs, owner = [], []
-    for i, c in enumerate(prepared):
-        if c.status != "ok":
-            continue
-        for tag, j in compile_plan(c, i, tier, c.pinned, c.all_std):
-            jobs.append(j)
-            owner.append((i, tag))
-    t0 = time.time()
-    outs = cppbuild.compile_many(jobs, workers=workers) if jobs else []
-    chk.extra["compile_s"] = round(chk.extra.get("compile_s", 0) + time.time() - t0, 1)
-    res = {}
-    for (i, tag), (b, log) in zip(owner, outs):
-        res.setdefault(i, []).append((tag, b is not None, log))
     ops, spans = [], []
     for c in prepared:
         if c.status == "ok":
@@ -384,6 +373,29 @@ def run_cases(chk, cases, model_ok, tier, workers):
         else:
             spans.append(None)
     answers = common.Model("model_c07").ask(ops) if (model_ok and ops) else None
+    jobs, owner = [], []
+    for i, c in enumerate(prepared):
+        if c.status != "ok":
+            continue
+        clash_predicted = False
+        if answers is not None and spans[i] is not None:
+            clash_predicted = any(a not in ("[]", "bad-op") for a in answers[spans[i][0]:spans[i][1]])
+        if clash_predicted and not c.pinned:
+            # the model says the header itself is ill-formed: one cheap header-only compile decides
+            plan = [("header-only:c++14:traits", {"src_text": c.header_only, "name": "c07_%d_h" % i, "std": "c++14",
+                                                   "sanitize": False, "opt": "-O0", "extra": ["-I" + c.outdir + "/t"],
+                                                   "syntax_only": True})]
+        else:
+            plan = compile_plan(c, i, tier, c.pinned, c.all_std)
+        for tag, j in plan:
+            jobs.append(j)
+            owner.append((i, tag))
+    t0 = time.time()
+    outs = cppbuild.compile_many(jobs, workers=workers) if jobs else []
+    chk.extra["compile_s"] = round(chk.extra.get("compile_s", 0) + time.time() - t0, 1)
+    res = {}
+    for (i, tag), (b, log) in zip(owner, outs):
+        res.setdefault(i, []).append((tag, b is not None, log))
     for i, c in enumerate(prepared):
         na = la = None
         if answers is not None and spans[i] is not None:
@@ -449,6 +461,18 @@ def search(chk):
 
 
 def run(tier):
+    """A bug in this harness is an infrastructure failure (exit 2), never a pass or a violation."""
+    import subprocess
+    import traceback
+    try:
+        return _run(tier)
+    except (common.InfraError, subprocess.TimeoutExpired):
+        raise
+    except Exception:  # noqa: BLE001
+        raise common.InfraError("harness exception:\n" + traceback.format_exc())
+
+
+def _run(tier):
     chk = common.Check(PROP, tier, exes=["model_c07"])
     chk.cov["rule"] = ("one evaluation = one module compiled by the real compiler, one literal, or one prelude clause; "
                        "non-trivial = distinct by shape of what the driver instantiated (views, fields, arrays, enums, "
@@ -468,7 +492,7 @@ def run(tier):
     for key, what, text, force in FINDINGS:
         # pinned inputs of the open findings: no steering (force every known defect on)
         cases.append(("pinned:" + key, {"m.emb": text}, "m.emb", ("equals", "text-out", "bits-iter", "text-in"), key, True, False))
-    n_gen, n_risky = (6, 5) if quick else (120, 80)
+    n_gen, n_risky = (6, 6) if quick else (60, 60)
     feats = {}
     for i in range(n_gen):
         files, main, info = embgen07.gen(r, 0.0)
